@@ -320,6 +320,59 @@ theorem periodic_of_lat (lat1 lon1 lat2 lon2 : ℝ) (ell : Ellipsoid)
   ⟨periodic _ _ _ _ _ (fun hc => h hc.1) (fun hc => h hc.1),
    periodic_sub _ _ _ _ _ (fun hc => h hc.1) (fun hc => h hc.1)⟩
 
+/-! ## 3b. the guard in `periodic` is needed -/
+
+theorem redLat_zero (f : ℝ) : redLat f 0 = 0 := by
+  unfold redLat
+  simp only [tan_def, atan_def, zero_mul, Real.tan_zero, mul_zero, Real.arctan_zero]
+
+/-- on the equator-to-equator configuration the reverse azimuth is at least 90 whatever `λ` is -/
+theorem az21Raw_zero_zero_ge (lon : ℝ) : 90 ≤ az21Raw 0 0 lon := by
+  have hpi := Real.pi_pos
+  have hk : 0 < 180 / Real.pi := by positivity
+  have harg : -(Real.pi / 2) ≤ (⟨-Real.sin 0 * Real.cos 0 + Real.cos 0 * Real.sin 0 * Real.cos lon,
+      Real.cos 0 * Real.sin lon⟩ : ℂ).arg := by
+    rw [Complex.neg_pi_div_two_le_arg_iff]
+    left
+    simp only [Real.sin_zero, Real.cos_zero]; norm_num
+  have h90 : -(Real.pi / 2) * (180 / Real.pi) = -90 := by field_simp; norm_num
+  have := mul_le_mul_of_nonneg_right harg hk.le
+  rw [h90] at this
+  unfold az21Raw
+  simp only [sin_def, cos_def, atan2_def, degrees_def]
+  linarith
+
+/-- C05.3 without the guard is false: for every ellipsoid, the pair `(0°, 0°)`, `(0°, 360°)` is
+not treated as coincident (reverse azimuth ≥ 90 before rounding), whereas `(0°, 0°)`, `(0°, 0°)`
+returns `(0, 0, 0)`. So `periodic` needs its hypotheses. -/
+theorem periodic_fails (ell : Ellipsoid) :
+    ¬ (∀ lat1 lon1 lat2 lon2 : ℝ,
+        vincinv lat1 lon1 lat2 (lon2 + 360) ell = vincinv lat1 lon1 lat2 lon2 ell) := by
+  intro hall
+  have heq := hall 0 0 0 0
+  have h0 : vincinv 0 0 0 0 ell = (0, 0, 0) := coincident _ _ _ _ _ (by norm_num)
+  have h1 := not_coincident_raw 0 0 0 (0 + 360) ell (by
+    intro h
+    have h2 := h.2
+    rw [abs_lt] at h2
+    norm_num at h2)
+  rw [heq, h0] at h1
+  have h3 : (0 : ℝ) = pround 9 (raw 0 0 (0 + 360 - 0) ell).2.2 := congrArg (fun p => p.2.2) h1
+  have hge : 90 ≤ (raw 0 0 (0 + 360 - 0) ell).2.2 := by
+    show 90 ≤ az21Raw (redLat ell.f 0) (redLat ell.f 0) _
+    rw [redLat_zero]
+    exact az21Raw_zero_zero_ge _
+  have hc := pround_close 9 (raw 0 0 (0 + 360 - 0) ell).2.2
+  rw [← h3, abs_le] at hc
+  have h5 : (1 : ℝ) / 2 / 10 ^ 9 < 1 := by norm_num
+  obtain ⟨hc1, _⟩ := hc
+  generalize (raw 0 0 (0 + 360 - 0) ell).2.2 = x at hge hc1
+  generalize (1 : ℝ) / 2 / 10 ^ 9 = c at h5 hc1
+  linarith
+
+example : ¬ (|(0 : ℝ) - 1| < 1 / 10 ^ 10 ∧ |(0 : ℝ) - (0 + 360)| < 1 / 10 ^ 10) := by
+  intro h; have := h.1; norm_num at this
+
 /-! ## 4. swapping the two points -/
 
 /-- the spherical cosine rule behind the symmetry of `sin σ`:
@@ -783,6 +836,7 @@ theorem lambda_exit (lat1 lat2 dlon : ℝ) (ell : Ellipsoid) :
 #print axioms shift_invariant
 #print axioms periodic
 #print axioms periodic_sub
+#print axioms periodic_fails
 #print axioms swap_symmetric_distance
 #print axioms swap_symmetric_azimuths
 #print axioms azimuth_range
